@@ -33,8 +33,10 @@ CHECKS = {
             "sync/fetch of a three-path window, reopen) on MemoryStore, LocalFileStore, the cache-wrapped local store and DBFSStore over a "
             "fake dbutils, every answer compared with a dictionary model; state = model + physical state. Part B: every path of 1-3 "
             "segments over {a, b, ab, 'a b', a.b, .a, e-acute, ., ..} committed alone (round trip, crash, escape from the data directory, "
-            "owned locations) and all pairs committed in both orders and at once and read back.",
-            "a key always maps to one value; segment-prefix pairs are C11's; DBFS is a fake",
+            "owned locations) and all pairs committed in both orders and at once and read back; URI-special, Unicode-equivalent and "
+            "bookkeeping-name segments; segment-prefix pairs committed by two separate commits. Part C: one transient I/O error at every "
+            "file-system primitive of five store-level operations of the local store (in-memory file system of the fsmc engine).",
+            "a key always maps to one value; segment-prefix pairs inside one commit are C11's; DBFS is a fake",
             "5/C08"),
     "C17": ("seqmc", "model_checking",
             "explicit-state BFS over store/fetch/register-codec/restart sequences with payload-tagging user codecs",
